@@ -149,15 +149,18 @@ def layouts(draw, n):
     sigs = list(n['sigs'])
     if sigs and draw(st.integers(0, 3)) == 0:
         sigs = draw(st.permutations(sigs))
-    out = []
+    out, later = [], []
     for s in sigs:
         if s in _POST_ONLY:
             out.append([s, 'post'])
             continue
         out.append([s, draw(st.sampled_from(slots))])
         if draw(st.integers(0, 6)) == 0 and s in _SIG_SET:
-            out.append([s, draw(st.sampled_from(slots))])  # repetition (canonical alphabet only: 'yy' twice is 'yyyy')
-    return out
+            # repetition (canonical alphabet only: 'yy' twice is 'yyyy'): directly after the first occurrence, or after all
+            # the other signifiers (in the same slot the two are then separated by them: 4c';')
+            rep = [s, draw(st.sampled_from(slots + [out[-1][1]] * 2))]
+            (later if draw(st.booleans()) else out).append(rep)
+    return out + later
 
 
 def note_cell_from(ns, layouts_):
